@@ -219,5 +219,17 @@ func main() {
 	if err := os.WriteFile(out, []byte(sb.String()), 0644); err != nil {
 		die(err)
 	}
+	// wire.go: the configuration state machine that binds utxo.Memory_Malloc / Memory_Free to common.Memory
+	wout := vlib.Root() + "/lean/GocoinV/Gen/MemWire.lean"
+	if o := os.Getenv("GEN_C20_WIRE_OUT"); o != "" {
+		wout = o
+	} else if os.Getenv("GEN_C20_OUT") != "" {
+		wout = os.Getenv("GEN_C20_OUT") + ".wire"
+	}
+	ws := wireFacts()
+	os.Remove(wout)
+	if err := os.WriteFile(wout, []byte(ws), 0644); err != nil {
+		die(err)
+	}
 	fmt.Printf("FACTS %d\n", facts)
 }
